@@ -15,90 +15,16 @@ import VotelibModel.WrapperLeaves
 namespace VL.C14
 open VL
 
-/-! ## 1. the dispatch flags: where `inspect.signature` tells the truth -/
+/-! ## 1. the dispatch flags: where `inspect.signature` tells the truth
 
-theorem dispatchFaithful_leaf (sig : Sig) (f : Sem) : DispatchFaithful (.leaf sig f) = true := by
-  simp [DispatchFaithful, acceptsSeats, acceptsPrevGains, takes]
+  Since commit e582ee8 `accepts_seats`, `accepts_prev_gains` and the new `accepts_max_seats` look through
+  the pass-through wrappers and through PartyListEvaluator.  `acceptsSeats_faithful`,
+  `acceptsPrevGains_faithful`, `acceptsMaxSeats_faithful` (Lemmas/Wrappers.lean) prove, by structural
+  induction over ALL trees, that each flag equals what the tree takes.  -/
 
-/-- wrappers whose `evaluate` names `n_seats` and `prev_gains`: always faithful -/
-theorem dispatchFaithful_conditioned (elim e : Ev) (d : Nat) : DispatchFaithful (.conditioned elim e d) = true := by
-  simp [DispatchFaithful, acceptsSeats, acceptsPrevGains, takes]
-theorem dispatchFaithful_byConstituency (e : Ev) (app : App Ev) (pre : Option Ev) :
-    DispatchFaithful (.byConstituency e app pre) = true := by
-  simp [DispatchFaithful, acceptsSeats, acceptsPrevGains, takes, allSig]
-theorem dispatchFaithful_preApportioned (e : Ev) (app : App Ev) : DispatchFaithful (.preApportioned e app) = true := by
-  simp [DispatchFaithful, acceptsSeats, acceptsPrevGains, takes, allSig]
-theorem dispatchFaithful_removedApportionment (e : Ev) : DispatchFaithful (.removedApportionment e) = true := by
-  simp [DispatchFaithful, acceptsSeats, acceptsPrevGains, takes, allSig]
-theorem dispatchFaithful_byParty (o : Ev) (al : Option Ev) : DispatchFaithful (.byParty o al) = true := by
-  simp [DispatchFaithful, acceptsSeats, acceptsPrevGains, takes, allSig]
-theorem dispatchFaithful_multistage (rs : List Ev) (d : Nat) : DispatchFaithful (.multistage rs d) = true := by
-  simp [DispatchFaithful, acceptsSeats, acceptsPrevGains, takes, allSig]
-theorem dispatchFaithful_unusedVotes (rs : List Ev) (qs : List QuotaFn) (d : Nat) :
-    DispatchFaithful (.unusedVotes rs qs d) = true := by
-  simp [DispatchFaithful, acceptsSeats, acceptsPrevGains, takes, allSig]
-
-/-- FixedSeatCount (class attribute `accepts_seats = False`, `**kwargs`): faithful as soon as the look-through
-    for `prev_gains` is -/
-theorem dispatchFaithful_fixedSeatCount (e : Ev) (n : V) :
-    DispatchFaithful (.fixedSeatCount e n) = (acceptsPrevGains e == (takes e).prev) := by
-  simp [DispatchFaithful, acceptsSeats, acceptsPrevGains, takes]
-
-/-- the pass-through wrappers (`*args, **kwargs`): `accepts_seats` is unconditionally True, so the flags are
-    faithful exactly when the wrapped evaluator takes seats and its own `prev_gains` flag is faithful -/
-theorem dispatchFaithful_tieBreaking (m t : Ev) :
-    DispatchFaithful (.tieBreaking m t) = ((takes m).seats && (acceptsPrevGains m == (takes m).prev)) := by
-  simp [DispatchFaithful, acceptsSeats, acceptsPrevGains, takes]
-theorem dispatchFaithful_preConverted (c : Conv) (e : Ev) :
-    DispatchFaithful (.preConverted c e) = ((takes e).seats && (acceptsPrevGains e == (takes e).prev)) := by
-  simp [DispatchFaithful, acceptsSeats, acceptsPrevGains, takes]
-theorem dispatchFaithful_postConverted (e : Ev) (c : Conv) :
-    DispatchFaithful (.postConverted e c) = ((takes e).seats && (acceptsPrevGains e == (takes e).prev)) := by
-  simp [DispatchFaithful, acceptsSeats, acceptsPrevGains, takes]
-theorem dispatchFaithful_votingSystem (e : Ev) :
-    DispatchFaithful (.votingSystem e) = ((takes e).seats && (acceptsPrevGains e == (takes e).prev)) := by
-  simp [DispatchFaithful, acceptsSeats, acceptsPrevGains, takes]
-
-/-- PartyListEvaluator forwards `**kwargs` to `party_eval`, which the look-through of `accepts_prev_gains`
-    (attributes `evaluator`, `main`) does not find: unfaithful exactly when the party evaluator takes
-    previous gains -/
-theorem dispatchFaithful_partyList (p : Ev) (le : Option ListSem) (c : Option Conv) :
-    DispatchFaithful (.partyList p le c) = !(takes p).prev := by
-  simp [DispatchFaithful, acceptsSeats, acceptsPrevGains, takes]
-
-/-- no PartyListEvaluator at the end of the chain of pass-through wrappers -/
-def PrevGainsVisible : Ev → Bool
-  | .fixedSeatCount e _ => PrevGainsVisible e
-  | .tieBreaking m _ => PrevGainsVisible m
-  | .preConverted _ e => PrevGainsVisible e
-  | .postConverted e _ => PrevGainsVisible e
-  | .votingSystem e => PrevGainsVisible e
-  | .partyList p _ _ => !(takes p).prev
-  | _ => true
-
-/-- after commit 904ccca `accepts_prev_gains` is the truth for every nesting of pass-through wrappers over
-    leaves and named-signature wrappers (before it was False for all five pass-through classes) -/
-theorem acceptsPrevGains_faithful : ∀ (e : Ev), PrevGainsVisible e = true → acceptsPrevGains e = (takes e).prev
-  | .leaf _ _, _ => by simp [acceptsPrevGains, takes]
-  | .fixedSeatCount e _, h => by
-      simp only [PrevGainsVisible] at h; simp [acceptsPrevGains, takes, acceptsPrevGains_faithful e h]
-  | .tieBreaking m _, h => by
-      simp only [PrevGainsVisible] at h; simp [acceptsPrevGains, takes, acceptsPrevGains_faithful m h]
-  | .preConverted _ e, h => by
-      simp only [PrevGainsVisible] at h; simp [acceptsPrevGains, takes, acceptsPrevGains_faithful e h]
-  | .postConverted e _, h => by
-      simp only [PrevGainsVisible] at h; simp [acceptsPrevGains, takes, acceptsPrevGains_faithful e h]
-  | .votingSystem e, h => by
-      simp only [PrevGainsVisible] at h; simp [acceptsPrevGains, takes, acceptsPrevGains_faithful e h]
-  | .partyList p _ _, h => by
-      simp only [PrevGainsVisible, Bool.not_eq_true'] at h; simp [acceptsPrevGains, takes, h]
-  | .conditioned _ _ _, _ => by simp [acceptsPrevGains, takes]
-  | .byConstituency _ _ _, _ => by simp [acceptsPrevGains, takes, allSig]
-  | .preApportioned _ _, _ => by simp [acceptsPrevGains, takes, allSig]
-  | .removedApportionment _, _ => by simp [acceptsPrevGains, takes, allSig]
-  | .byParty _ _, _ => by simp [acceptsPrevGains, takes, allSig]
-  | .multistage _ _, _ => by simp [acceptsPrevGains, takes, allSig]
-  | .unusedVotes _ _ _, _ => by simp [acceptsPrevGains, takes, allSig]
+/-- every tree, of any nesting, over any leaves: the three flags of core.py are the truth -/
+theorem dispatchFaithful_all (e : Ev) : DispatchFaithful e = true := by
+  simp [DispatchFaithful, acceptsSeats_faithful, acceptsPrevGains_faithful, acceptsMaxSeats_faithful]
 
 /-! ## 2. one law per wrapper: the wrapper with arbitrary sub-trees equals the composition of the sub-trees
        called by hand (`tol`); hypotheses are local to the node and decidable -/
@@ -112,16 +38,15 @@ theorem fixedSeatCount_law (e : Ev) (n : V) (a : Args) (hs : (takes e).seats = t
   have := (agree_fixed n (agree_tol (takes e) (eval e)) hs).onFits a (by simpa [takes] using hfit)
   simpa [eval] using this
 
-/-- conditioning equals evaluating on the votes restricted to the candidates the eliminator passed -/
+/-- conditioning equals evaluating on the votes restricted to the candidates the eliminator passed
+    (no hypothesis on the sub-trees any more: the dispatch is faithful for every tree) -/
 theorem conditioned_law (elim e : Ev) (d : Nat) (a : Args)
-    (hElim : acceptsPrevGains elim = (takes elim).prev) (hE : DispatchFaithful e = true)
     (hfit : a.fits (takes (.conditioned elim e d)) = true) :
     eval (.conditioned elim e d) a
       = conditionedLaw (tol (takes elim) (eval elim)) (tol (takes e) (eval e)) d a := by
-  simp only [DispatchFaithful, Bool.and_eq_true, beq_iff_eq] at hE
   have := (agree_conditioned d (agree_tol (takes elim) (eval elim)) (agree_tol (takes e) (eval e))).onFits a
     (by simpa [takes] using hfit)
-  simpa [eval, hElim, hE.1, hE.2] using this
+  simpa [eval, acceptsPrevGains_faithful, acceptsSeats_faithful] using this
 
 /-- pre-conversion equals converting, then evaluating -/
 theorem preConverted_law (c : Conv) (e : Ev) (a : Args) (hfit : a.fits (takes e) = true) :
@@ -139,17 +64,17 @@ theorem postConverted_law (e : Ev) (c : Conv) (a : Args) (hfit : a.fits (takes e
 theorem votingSystem_law (e : Ev) (a : Args) : eval (.votingSystem e) a = eval e a := by
   simp [eval]
 
-/-- per-constituency evaluation equals evaluating each constituency separately with its apportioned seats -/
+/-- per-constituency evaluation equals evaluating each constituency separately with its apportioned seats
+    (the district evaluator takes a seat count; an apportioner given as evaluator takes one) -/
 theorem byConstituency_law (e : Ev) (app : App Ev) (pre : Option Ev) (a : Args)
-    (hs : (takes e).seats = true) (hE : acceptsPrevGains e = (takes e).prev) (hpm : (takes e).prev = (takes e).max)
+    (hs : (takes e).seats = true)
     (happ : ∀ ap, app = .ev ap → (takes ap).seats = true)
-    (hpre : ∀ p, pre = some p → acceptsSeats p = (takes p).seats)
     (hfit : a.fits allSig = true) :
     eval (.byConstituency e app pre) a
       = byConstituencyLaw (tol (takes e) (eval e)) (appMap (fun x => tol (takes x) (eval x)) app)
           (pre.map (fun x => tol (takes x) (eval x))) a := by
-  rw [eval_byConstituency, hE]
-  refine (agree_byConstituency (agree_tol (takes e) (eval e)) hs hpm ?_ ?_).onFits a hfit
+  rw [eval_byConstituency, acceptsPrevGains_faithful, acceptsMaxSeats_faithful]
+  refine (agree_byConstituency (agree_tol (takes e) (eval e)) hs ?_ ?_).onFits a hfit
   · cases app with
     | none => exact .none
     | int k => exact .int k
@@ -158,7 +83,7 @@ theorem byConstituency_law (e : Ev) (app : App Ev) (pre : Option Ev) (a : Args)
   · cases pre with
     | none => exact .none _
     | some p =>
-      simp only [hpre p rfl, Option.map]
+      simp only [acceptsSeats_faithful, Option.map]
       exact .some (agree_tol (takes p) (eval p))
 
 /-- pre-apportionment equals apportioning, then evaluating with the table of seats -/
@@ -182,14 +107,14 @@ theorem removedApportionment_law (e : Ev) (a : Args) (hall : takesAll e = true) 
   have := (agree_removedApportionment (agree_tol (takes e) (eval e)) hall.1.1 hall.1.2 hall.2).onFits a hfit
   simpa [eval] using this
 
-/-- ByParty: overall result on the totals, each party's seats allocated over the constituencies -/
-theorem byParty_law (o al : Ev) (a : Args) (hso : (takes o).seats = true) (hall : takesAll al = true)
-    (hA : acceptsPrevGains al = (takes al).prev) (hfit : a.fits allSig = true) :
+/-- ByParty: overall result on the totals (a seatless overall evaluator is not handed the seat count), each
+    party's seats allocated over the constituencies; the allocator takes seats, previous gains and caps -/
+theorem byParty_law (o al : Ev) (a : Args) (hall : takesAll al = true) (hfit : a.fits allSig = true) :
     eval (.byParty o (some al)) a = byPartyLaw (tol (takes o) (eval o)) (tol (takes al) (eval al)) a := by
   simp only [takesAll, Bool.and_eq_true] at hall
   have := (agree_byParty (agree_tol (takes o) (eval o)) (agree_tol (takes al) (eval al))
-    hso hall.1.1 hall.1.2 hall.2).onFits a hfit
-  simpa [eval, hA] using this
+    hall.1.1 hall.1.2 hall.2).onFits a hfit
+  simpa [eval, acceptsPrevGains_faithful, acceptsSeats_faithful] using this
 
 theorem evalList_eq_map (rs : List Ev) : evalList rs = rs.map eval := by
   induction rs with
@@ -298,43 +223,60 @@ theorem fix_904ccca_before_witness :
         (acceptsPrevGainsOld (.tieBreaking haT plurT)) (eval (thrT 0)) (eval (.tieBreaking haT plurT)) 1 args904
       = .ok (sv [(0, 3), (1, 1)]) := by decide +kernel
 
-/-- still open: the look-through does not reach `party_eval`, Conditioned over a PartyListEvaluator drops the
-    previous gains (3 + 1 list candidates seated instead of 1 + 1) -/
+/-- repaired by e582ee8: the look-through now reaches `party_eval`; Conditioned over a PartyListEvaluator
+    hands on the previous gains (1 + 1 list candidates seated) … -/
 def treePlist : Ev := .conditioned (thrT 0) (.partyList haT Option.none Option.none) 1
 def argsPlist : Args :=
   { votes := sv [(0, 10), (1, 6)], n := some (.num 4), prev := some (sv [(0, 2)])
     pl := some (.dict [(.cand 0, .list [.cand 200, .cand 201, .cand 202, .cand 203]),
                        (.cand 1, .list [.cand 210, .cand 211, .cand 212])]) }
 
-theorem partyList_prev_gains_dropped_witness :
-    DispatchFaithful (.partyList haT Option.none Option.none) = false
-    ∧ argsPlist.fits (takes treePlist) = true
-    ∧ eval treePlist argsPlist
-        = .ok (.dict [(.cand 0, .list [.cand 200, .cand 201, .cand 202]), (.cand 1, .list [.cand 210])])
-    ∧ denote treePlist argsPlist
-        = .ok (.dict [(.cand 0, .list [.cand 200]), (.cand 1, .list [.cand 210])]) := by decide +kernel
+theorem fix_e582ee8_partyList_now :
+    WellFormed treePlist = true ∧ argsPlist.fits (takes treePlist) = true
+    ∧ eval treePlist argsPlist = .ok (.dict [(.cand 0, .list [.cand 200]), (.cand 1, .list [.cand 210])])
+    ∧ denote treePlist argsPlist = .ok (.dict [(.cand 0, .list [.cand 200]), (.cand 1, .list [.cand 210])]) := by
+  decide +kernel
 
-/-- still open: `accepts_seats` is True for every `*args/**kwargs` wrapper; over a seatless evaluator the
-    seat count is forwarded and the call fails where the hand composition elects A -/
+/-- … with the flag as it was it seated 3 + 1 -/
+theorem fix_e582ee8_partyList_before_witness :
+    acceptsPrevGains904 (.partyList haT Option.none Option.none) ≠ (takes (.partyList haT Option.none Option.none)).prev
+    ∧ conditionedImpl (acceptsPrevGains904 (thrT 0)) (acceptsSeatsOld (.partyList haT Option.none Option.none))
+        (acceptsPrevGains904 (.partyList haT Option.none Option.none)) (eval (thrT 0))
+        (eval (.partyList haT Option.none Option.none)) 1 argsPlist
+      = .ok (.dict [(.cand 0, .list [.cand 200, .cand 201, .cand 202]), (.cand 1, .list [.cand 210])]) := by
+  decide +kernel
+
+/-- repaired by e582ee8: `accepts_seats` asks the wrapped evaluator; a seatless evaluator behind a
+    pass-through wrapper is no longer handed a seat count … -/
 def treeGeneric : Ev := .conditioned (thrT 2) (.votingSystem (.fixedSeatCount plurT (.num 1))) 1
 def argsGeneric : Args := { votes := sv [(0, 10), (1, 6)] }
 
-theorem generic_over_seatless_witness :
-    DispatchFaithful (.votingSystem (.fixedSeatCount plurT (.num 1))) = false
-    ∧ eval treeGeneric argsGeneric = .error eType
+theorem fix_e582ee8_generic_now :
+    WellFormed treeGeneric = true ∧ argsGeneric.fits (takes treeGeneric) = true
+    ∧ eval treeGeneric argsGeneric = .ok (.list [.cand 0])
     ∧ denote treeGeneric argsGeneric = .ok (.list [.cand 0]) := by decide +kernel
 
-/-- still open: Conditioned forwards its default `n_seats=None`; the law (what the code does) and the ideal
+/-- … with `'n_seats' in params or _has_generic(params)` the call failed -/
+theorem fix_e582ee8_generic_before_witness :
+    acceptsSeatsOld (.votingSystem (.fixedSeatCount plurT (.num 1)))
+      ≠ (takes (.votingSystem (.fixedSeatCount plurT (.num 1)))).seats
+    ∧ conditionedImpl (acceptsPrevGains (thrT 2)) (acceptsSeatsOld (.votingSystem (.fixedSeatCount plurT (.num 1))))
+        (acceptsPrevGains (.votingSystem (.fixedSeatCount plurT (.num 1)))) (eval (thrT 2))
+        (eval (.votingSystem (.fixedSeatCount plurT (.num 1)))) 1 argsGeneric = .error eType := by
+  decide +kernel
+
+/-- STILL OPEN: Conditioned forwards its default `n_seats=None`; the law (what the code does) and the ideal
     (an omitted seat count stays omitted) differ for a part with a default seat count -/
 def treeNone : Ev := .conditioned (thrT 2) plurT 1
 
 theorem conditioned_none_seats_witness :
-    WellFormed treeNone = true
+    WellFormed treeNone = true ∧ argsGeneric.fits (takes treeNone) = true
     ∧ eval treeNone argsGeneric = .error eType
+    ∧ denote treeNone argsGeneric = .error eType
     ∧ conditionedIdeal (denote (thrT 2)) (denote plurT) 1 argsGeneric = .ok (.list [.cand 0]) := by
   decide +kernel
 
-/-! ### per-constituency: the ideal reading and where the code leaves it -/
+/-! ### per-constituency and per-party: before and after 9f4a9df / e582ee8 -/
 
 def nested (l : List (Nat × List (Nat × Rat))) : V := .dict (l.map (fun p => (Key.cand p.1, sv p.2)))
 
@@ -367,46 +309,84 @@ example : WellFormed treeDeep = true ∧ argsDeep.fits (takes treeDeep) = true
     ∧ isOk (eval treeDeep argsDeep) = true ∧ eval treeDeep argsDeep = denote treeDeep argsDeep := by
   decide +kernel
 
-/-- non-vacuity of `byConstituency_ideal`: table covers both constituencies, one is evaluated -/
-example : apportionmentCovers .none argsByCon = true
-    ∧ isOk (byConstituencyLaw (denote haT) .none Option.none argsByCon) = true := by decide +kernel
+def argsAllZero : Args := { votes := nested [(100, [(0, 1)])], n := some (sv [(100, 0)]) }
 
-/-- still open: no constituency evaluated (all have zero seats): StopIteration instead of empty results -/
-theorem byConstituency_all_zero_witness :
-    eval (.byConstituency haT .none Option.none)
-        { votes := nested [(100, [(0, 1)])], n := some (sv [(100, 0)]) } = .error eStop
-    ∧ byConstituencyIdeal (.dict []) (denote haT) .none Option.none
-        { votes := nested [(100, [(0, 1)])], n := some (sv [(100, 0)]) } = .ok (.dict [(.cand 100, .dict [])]) := by
+/-- repaired by 9f4a9df: no constituency evaluated (all have zero seats) gives empty results … -/
+theorem fix_9f4a9df_all_zero_now :
+    eval (.byConstituency haT .none Option.none) argsAllZero = .ok (.dict [(.cand 100, .dict [])])
+    ∧ denote (.byConstituency haT .none Option.none) argsAllZero = .ok (.dict [(.cand 100, .dict [])]) := by
   decide +kernel
 
-/-- still open: a constituency the apportioner gave no seat is handed `n_seats=None` -/
-theorem byConstituency_missing_district_witness :
-    eval (.byConstituency haT (.ev haT) Option.none)
-        { votes := nested [(100, [(0, 50), (1, 10)]), (101, [(0, 3), (1, 4)])], n := some (.num 2) } = .error eType
-    ∧ byConstituencyIdeal (.dict []) (denote haT) (.ev (denote haT)) Option.none
-        { votes := nested [(100, [(0, 50), (1, 10)]), (101, [(0, 3), (1, 4)])], n := some (.num 2) }
-      = .ok (.dict [(.cand 100, sv [(0, 2)]), (.cand 101, .dict [])]) := by
+/-- … it was StopIteration -/
+theorem fix_9f4a9df_all_zero_before_witness :
+    byConstituencyImplOld (acceptsPrevGains haT) false (eval haT) .none Option.none argsAllZero = .error eStop := by
   decide +kernel
 
-/-- still open: ByConstituency hands `max_seats` to every evaluator that accepts `prev_gains` -/
-theorem byConstituency_max_seats_forced_witness :
-    WellFormed (.byConstituency (.conditioned (thrT 2) plurT 1) .none Option.none) = false
-    ∧ eval (.byConstituency (.conditioned (thrT 2) plurT 1) .none Option.none)
-        { votes := nested [(100, [(0, 5), (1, 1)]), (101, [(0, 3), (1, 4)])], n := some (.num 1) } = .error eType
-    ∧ denote (.byConstituency (.conditioned (thrT 2) plurT 1) .none Option.none)
-        { votes := nested [(100, [(0, 5), (1, 1)]), (101, [(0, 3), (1, 4)])], n := some (.num 1) }
-      = .ok (.dict [(.cand 100, .list [.cand 0]), (.cand 101, .list [.cand 1])]) := by
+def argsMissing : Args :=
+  { votes := nested [(100, [(0, 50), (1, 10)]), (101, [(0, 3), (1, 4)])], n := some (.num 2) }
+
+/-- repaired by 9f4a9df: a constituency the apportioner gave no seat has no seats … -/
+theorem fix_9f4a9df_missing_district_now :
+    WellFormed (.byConstituency haT (.ev haT) Option.none) = true
+    ∧ eval (.byConstituency haT (.ev haT) Option.none) argsMissing
+        = .ok (.dict [(.cand 100, sv [(0, 2)]), (.cand 101, .dict [])])
+    ∧ denote (.byConstituency haT (.ev haT) Option.none) argsMissing
+        = .ok (.dict [(.cand 100, sv [(0, 2)]), (.cand 101, .dict [])]) := by
   decide +kernel
 
-/-- still open: ByParty always hands `n_seats` (here its default None) to the overall evaluator, although a
-    call without seat count needs a seatless one -/
-theorem byParty_none_seats_witness :
-    WellFormed (.byParty (.fixedSeatCount haT (.num 3)) (some haT)) = false
-    ∧ eval (.byParty (.fixedSeatCount haT (.num 3)) (some haT))
-        { votes := nested [(100, [(0, 5), (1, 1)]), (101, [(0, 3), (1, 4)])] } = .error eType
-    ∧ denote (.byParty (.fixedSeatCount haT (.num 3)) (some haT))
-        { votes := nested [(100, [(0, 5), (1, 1)]), (101, [(0, 3), (1, 4)])] }
-      = .ok (.dict [(.cand 100, sv [(0, 1)]), (.cand 101, sv [(0, 1), (1, 1)])]) := by
+/-- … it was handed `n_seats=None` -/
+theorem fix_9f4a9df_missing_district_before_witness :
+    byConstituencyImplOld (acceptsPrevGains haT) false (eval haT) (.ev (eval haT)) Option.none argsMissing
+      = .error eType := by
+  decide +kernel
+
+def treeMaxForced : Ev := .byConstituency (.conditioned (thrT 2) plurT 1) .none Option.none
+def argsMaxForced : Args :=
+  { votes := nested [(100, [(0, 5), (1, 1)]), (101, [(0, 3), (1, 4)])], n := some (.num 1) }
+
+/-- repaired by e582ee8: ByConstituency hands `max_seats` only to an evaluator that accepts it … -/
+theorem fix_e582ee8_max_seats_now :
+    WellFormed treeMaxForced = true ∧ argsMaxForced.fits (takes treeMaxForced) = true
+    ∧ eval treeMaxForced argsMaxForced = .ok (.dict [(.cand 100, .list [.cand 0]), (.cand 101, .list [.cand 1])])
+    ∧ denote treeMaxForced argsMaxForced
+        = .ok (.dict [(.cand 100, .list [.cand 0]), (.cand 101, .list [.cand 1])]) := by
+  decide +kernel
+
+/-- … it went with `prev_gains` to every evaluator accepting those (Plurality got `max_seats`) -/
+theorem fix_e582ee8_max_seats_before_witness :
+    byConstituencyImplOld (acceptsPrevGains904 (.conditioned (thrT 2) plurT 1)) false
+        (eval (.conditioned (thrT 2) plurT 1)) .none Option.none argsMaxForced = .error eType := by
+  decide +kernel
+
+def treeByPartyNone : Ev := .byParty (.fixedSeatCount haT (.num 3)) (some haT)
+def argsByPartyNone : Args := { votes := nested [(100, [(0, 5), (1, 1)]), (101, [(0, 3), (1, 4)])] }
+
+/-- repaired by e582ee8: ByParty hands `n_seats` only to an overall evaluator that takes it … -/
+theorem fix_e582ee8_byParty_seatless_now :
+    WellFormed treeByPartyNone = true ∧ argsByPartyNone.fits (takes treeByPartyNone) = true
+    ∧ eval treeByPartyNone argsByPartyNone
+        = .ok (.dict [(.cand 100, sv [(0, 1)]), (.cand 101, sv [(0, 1), (1, 1)])])
+    ∧ denote treeByPartyNone argsByPartyNone
+        = .ok (.dict [(.cand 100, sv [(0, 1)]), (.cand 101, sv [(0, 1), (1, 1)])]) := by
+  decide +kernel
+
+/-- … it always did (`overallSeats := true`) -/
+theorem fix_e582ee8_byParty_seatless_before_witness :
+    byPartyImpl true (acceptsPrevGains haT) (eval (.fixedSeatCount haT (.num 3))) (eval haT) argsByPartyNone
+      = .error eType := by
+  decide +kernel
+
+/-- STILL OPEN: ByParty's ALLOCATOR branch was not changed by e582ee8: `max_seats` goes with `prev_gains` to
+    every allocator that accepts those (outside `WellFormed`: the allocator does not take `max_seats`) -/
+def treeByPartyMax : Ev :=
+  .byParty haT (some (.postConverted (.conditioned (thrT 0) plurT 1) (.selectionToDistribution (.num 1))))
+def argsByPartyMax : Args :=
+  { votes := nested [(100, [(0, 5), (1, 1)]), (101, [(0, 3), (1, 4)])], n := some (.num 2) }
+
+theorem byParty_max_seats_forced_witness :
+    WellFormed treeByPartyMax = false
+    ∧ eval treeByPartyMax argsByPartyMax = .error eType
+    ∧ isOk (denote treeByPartyMax argsByPartyMax) = true := by
   decide +kernel
 
 /-- non-vacuity of `byParty_law`: overall D'Hondt on the totals, each party's seats split over the constituencies -/
@@ -419,61 +399,21 @@ example :
 
 /-! ## 5. what the laws say, spelled out -/
 
-/-- the ideal reading of per-constituency evaluation (a constituency the table does not mention has no
-    seats; empty results even when nothing is evaluated) coincides with what the code does whenever the
-    apportionment mentions every constituency and the code's composition yields a value, i.e. at least
-    one constituency is evaluated -/
-theorem byConstituency_ideal (dflt : V) (P : Sem) (app : App Sem) (pre : Option Sem) (a : Args) (r : V)
-    (hcov : apportionmentCovers app a = true)
-    (hr : byConstituencyLaw P app pre a = .ok r) :
-    byConstituencyIdeal dflt P app pre a = .ok r := by
-  simp only [byConstituencyLaw, byConstituencyIdeal] at hr ⊢
-  cases hs : apportionLaw app a.votes (a.n.getD .none) with
-  | error e => rw [hs] at hr; cases hr
-  | ok seats =>
-    rw [hs] at hr
-    simp only [ok_bind] at hr ⊢
-    have hc : covered seats a.votes = true := by simpa [apportionmentCovers, hs] using hcov
-    cases hal : allowedLaw pre a.votes (a.n.getD .none) with
-    | error e => rw [hal] at hr; cases hr
-    | ok allowed =>
-      rw [hal] at hr
-      simp only [ok_bind] at hr ⊢
-      cases hv : a.votes with
-      | dict kvs =>
-        rw [hv] at hr
-        simp only [V.items, ok_bind] at hr ⊢
-        have hfun : districtsLaw P allowed seats (a.prev.getD (.dict [])) (a.max.getD (.dict [])) (.num 0) kvs
-            = districtsLaw P allowed seats (a.prev.getD (.dict [])) (a.max.getD (.dict [])) .none kvs := by
-          unfold districtsLaw
-          apply mapM_congr'
-          intro p hp
-          cases seats with
-          | dict sd =>
-            have hc' : D.has sd p.1 = true := by
-              simp only [covered, hv, List.all_eq_true] at hc
-              exact hc p hp
-            obtain ⟨v, hv'⟩ := D.get?_of_has sd p.1 hc'
-            simp [V.items, hv']
-          | num _ => rfl
-          | cand _ => rfl
-          | tie _ => rfl
-          | none => rfl
-          | list _ => rfl
-        rw [hfun]
-        cases hrs : districtsLaw P allowed seats (a.prev.getD (.dict [])) (a.max.getD (.dict [])) .none kvs with
-        | error e => rw [hrs] at hr; cases hr
-        | ok rs =>
-          rw [hrs] at hr
-          simp only [ok_bind] at hr ⊢
-          cases hf : rs.findSome? (·.2) with
-          | none => rw [hf] at hr; cases hr
-          | some first => rw [hf] at hr; simpa using hr
-      | num _ => rw [hv] at hr; cases hr
-      | cand _ => rw [hv] at hr; cases hr
-      | tie _ => rw [hv] at hr; cases hr
-      | none => rw [hv] at hr; cases hr
-      | list _ => rw [hv] at hr; cases hr
+/-- per-constituency evaluation never fails for lack of an evaluated constituency (9f4a9df): whenever the
+    apportionment, the preselection and every single constituency evaluate, the composition is a value -/
+theorem byConstituency_total (P : Sem) (app : App Sem) (pre : Option Sem) (a : Args) (seats : V)
+    (allowed : Option V) (kvs : D) (rs : List (Key × Option V))
+    (h1 : apportionLaw app a.votes (a.n.getD .none) = .ok seats)
+    (h2 : allowedLaw pre a.votes (a.n.getD .none) = .ok allowed)
+    (h3 : a.votes = .dict kvs)
+    (h4 : districtsLaw P allowed seats (a.prev.getD (.dict [])) (a.max.getD (.dict [])) (.num 0) kvs = .ok rs) :
+    ∃ kind, byConstituencyLaw P app pre a = .ok (assemble rs kind) := by
+  refine ⟨(match rs.findSome? (·.2) with
+    | some first => emptyLike first
+    | Option.none => .dict []), ?_⟩
+  have h3' : a.votes.items = .ok kvs := by rw [h3]; rfl
+  simp only [byConstituencyLaw, h1, h2, h3', ok_bind, h4]
+  rfl
 
 /-- each constituency separately: in the composition, the entry of a constituency that is evaluated is
     exactly the part's result on that constituency's (preselected) votes with that constituency's seats,
